@@ -1,6 +1,9 @@
-(* C10 requests: 1000 run a history in the store model, 1001 property oracle on the implementation's observations. *)
-From Coq Require Import List ZArith Bool.
+(* C10 requests: 1000 run a history in the store model, 1001 property oracle on the implementation's observations,
+   1002 one SCCReader OBJECT reads a sequence of documents (model/SccReuse.v: reader_history over the decoder model, the
+        text goes through the Coq tokeniser): [reset field codes; [[offset_us; text] ..]] -> the result of every read. *)
+From Coq Require Import List ZArith QArith Bool.
 From PV Require Import lib.Sx lib.Result model.Store model.Iso spec.SpecIso extract.OrCommon extract.IsoWire.
+From PV Require Import model.SccDecoder model.SccTokenise model.SccReuse extract.OrC06.
 Import ListNotations.
 Open Scope Z_scope.
 
@@ -10,9 +13,28 @@ Definition req_ok_c10 (arg : sx) : sx :=
   | None => bad
   end.
 
+Definition sx_doc (x : sx) : option doc :=
+  match x with
+  | SL [off; SS text] => match sx_q off with Some q => Some (q, tokenise text) | None => None end
+  | _ => None
+  end.
+
+Definition req_reader_history (arg : sx) : sx :=
+  match arg with
+  | SL [fs; docs] =>
+      match sx_listof sx_int fs, sx_listof sx_doc docs with
+      | Some fs, Some docs =>
+          let fl := flat_map (fun z => match fld_of_code z with Some f => [f] | None => [] end) fs in
+          SL [of_bool (covers fl); of_list of_read_result (reader_history fl new_reader docs)]
+      | _, _ => bad
+      end
+  | _ => bad
+  end.
+
 Definition dispatch (code : Z) (arg : sx) : option sx :=
   match code with
   | 1000 => Some (req_run arg)
   | 1001 => Some (req_ok_c10 arg)
+  | 1002 => Some (req_reader_history arg)
   | _ => None
   end.
